@@ -698,7 +698,12 @@ def pinned_specs(seed):
     none = {"n": 0, "programs": [], "bias": 107}
     cff = {"kind": "font", "dwx": dwx, "nwx": nwx, "flat": flat, "sub": flat, "lsubrs": none, "gsubrs": none}
     # accent building with an explicit width operand, base and accent with real outlines
-    seac = {"kind": "cff", "cff": cff, "names": [".notdef", "A", "grave", "B", "Agrave"], "use_subrs": False, "extras": {}, "pinned": "seac",
+    os2 = {"version": 5, "xAvgCharWidth": 500, "usWeightClass": 400, "usWidthClass": 5, "fsType": 0, "sub": [650, 600, 0, 75, 650, 600, 0, 350],
+           "strike": [50, 250], "sFamilyClass": 0, "panose": [0] * 10, "ur": [1, 0, 0, 0], "vend": "NONE", "fsSelection": 0x40, "typo": [800, -200, 90],
+           "win": [900, 250], "cpr": [1, 0], "xcap": [450, 700], "defbreak": [0, 0x20], "maxctx": 1,
+           # optical size range in TWIPs: non-zero, one bound not a multiple of 20
+           "opsz": [rnd.choice([160, 161, 180]), rnd.choice([1440, 1441, 2400])]}
+    seac = {"kind": "cff", "cff": cff, "names": [".notdef", "A", "grave", "B", "Agrave"], "use_subrs": False, "extras": {"OS/2": os2}, "pinned": "seac+os2v5",
             "seac": {"adx": rnd.randint(-50, 250), "ady": rnd.randint(0, 120), "explicit": True, "width": widths[1] + 50}}
     # CID-keyed CFF whose font dicts have different most-common advances, and a glyph of the first font dict that has the
     # other font dict's common advance (half-width glyph in a full-width font dict)
@@ -710,6 +715,42 @@ def pinned_specs(seed):
            "cid": {"fd": fds, "shapes": [[rnd.randint(2, 8) * 50, rnd.randint(2, 8) * 50, rnd.randint(0, 4) * 25] for _ in range(nfd)],
                    "nominal": [rnd.choice([0, 100, 500]) for _ in range(nfd)], "widths": widths, "fdselect": rnd.choice([0, 3])}}
     return [seac, cid]
+
+
+SHAPES = [
+    # (name, predicate over a drawn specification): shapes that some clause of some check needs and that a run of 64 drawn
+    # fonts has only with some probability
+    ("weird-names-cff", lambda s: s.get("weird_names") and s["kind"] == "cff"),
+    ("weird-names-glyf", lambda s: s.get("weird_names") and s["kind"] in ("glyf", "var")),
+    ("bitmap-components", lambda s: any(st_["image"] in (8, 9) for strike in s["extras"].get("EBLC", []) for st_ in strike["subtables"])),
+    ("bitmap-depth>1", lambda s: any(strike.get("bitDepth", strike.get("bd", 1)) > 1 for strike in s["extras"].get("EBLC", []))),
+    ("kern-subtables>1", lambda s: len(s["extras"].get("kern", [])) > 1 and all(k["pairs"] for k in s["extras"]["kern"])),
+    ("hdmx+LTSH", lambda s: "hdmx" in s["extras"] and "LTSH" in s["extras"]),
+    ("VORG", lambda s: "vert" in s["extras"] and s["kind"] in ("cff", "cid")),
+    ("COLR", lambda s: "COLR" in s["extras"]),
+    ("uvs+cmap12", lambda s: "uvs" in s["extras"] and s["extras"].get("cmap12")),
+    ("layout-var", lambda s: "layout" in s["extras"] and s["kind"] == "var"),
+]
+
+
+def shape_picks(drawn, more):
+    """For every shape that none of the `drawn` specifications has: the first of `more` (the continuation of the same
+    Hypothesis stream) that has it. Deterministic, bounded, and every run gets every shape (if the stream has it at all)."""
+    out = []
+    for name, pred in SHAPES:
+        def has(s):
+            try:
+                return bool(pred(s))
+            except Exception:
+                return False
+
+        if any(has(s) for s in drawn):
+            continue
+        for s in more:
+            if has(s) and all(s is not o for o in out):
+                out.append(dict(s, pinned=name))
+                break
+    return out
 
 
 def build(spec):
